@@ -9,6 +9,8 @@ From Coq Require Import ZArith List Bool.
 Import ListNotations.
 From TF Require Import Lib.GoInt Lib.Bytes Gen.Geometry Model.CRC Model.Sidecar Model.Resume.
 From TF Require Import Proofs.CRC Proofs.Sidecar Proofs.Resume Proofs.Geometry Proofs.ResumeFile Proofs.Popcount.
+From Coq Require String.
+From TF Require Model.BeginDisk Proofs.BeginDisk Gen.BeginMeta Proofs.BeginMeta.
 Open Scope Z_scope.
 
 (* what Flush writes is what LoadSidecar returns *)
@@ -231,3 +233,40 @@ Example C06_examples :
   (exists o, resume_outcome crc32c (mkRq [97] 5 2 1) (mkDisk (Some w_src) (Some (serialise (mkSc 2 5 3 [97] [7]))) None) w_src 0 false = Ret o /\
              o_loaded o = true /\ o_sent o = [] /\ o_resent o = None).
 Proof. vm_compute. repeat split; try reflexivity; eexists; repeat split; reflexivity. Qed.
+
+(* ---- metadata left over from a data file that has since been deleted or shortened, in BOTH
+   modes of the receiver (repo fix cc27423: before it a receive without resume re-created the
+   data file and left that metadata for the next resumed run to trust) ---- *)
+Module Begin.
+Import TF.Model.BeginDisk TF.Proofs.BeginDisk.
+
+(* whatever FileBegin finds - honest metadata, or metadata whose data file is gone / of another
+   length - what it leaves on disk is honest about the (re-created) data file *)
+Theorem C06_begin_leaves_honest_metadata : forall id size cs src d,
+  stale_data size d = true \/ disk_honest id size cs src d ->
+  disk_honest id size cs src (begin_disk size d).
+Proof. exact begin_disk_honest. Qed.
+Print Assumptions C06_begin_leaves_honest_metadata.
+
+(* the statement was false of the receiver without resume as it was (witness replayed on the
+   implementation: harness/c06plain.go, known_findings.json "fixed") *)
+Theorem C06_plain_begin_before_fix_refuted :
+  stale_data 2 w_disk = true /\ ~ disk_honest [7] 2 1 w_src (begin_disk_old false 2 w_disk).
+Proof. exact old_plain_begin_refuted. Qed.
+Print Assumptions C06_plain_begin_before_fix_refuted.
+
+(* the model's rule is the code's: read off handleFileBegin on this run *)
+Theorem C06_stale_rule_in_both_modes :
+  TF.Proofs.BeginMeta.removed TF.Proofs.BeginMeta.primary_path TF.Proofs.BeginMeta.plain_stale = true /\
+  TF.Proofs.BeginMeta.removed TF.Proofs.BeginMeta.fallback_path (TF.Proofs.BeginMeta.plain_stale ++ TF.Proofs.BeginMeta.two_dirs) = true /\
+  TF.Proofs.BeginMeta.removed TF.Proofs.BeginMeta.primary_path TF.Proofs.BeginMeta.resume_stale = true /\
+  TF.Proofs.BeginMeta.removed TF.Proofs.BeginMeta.fallback_path (TF.Proofs.BeginMeta.resume_stale ++ TF.Proofs.BeginMeta.two_dirs) = true.
+Proof. exact TF.Proofs.BeginMeta.stale_rule_in_both_modes. Qed.
+Print Assumptions C06_stale_rule_in_both_modes.
+
+Definition stale_atom : String.string := TF.Proofs.BeginMeta.stale_flag.
+Theorem C06_metadata_removed_only_when_stale :
+  forallb (fun r => existsb (String.eqb stale_atom) (snd r)) TF.Gen.BeginMeta.begin_meta_removals = true.
+Proof. exact TF.Proofs.BeginMeta.removal_only_when_stale. Qed.
+Print Assumptions C06_metadata_removed_only_when_stale.
+End Begin.
